@@ -18,13 +18,14 @@ func zzDamaged(t *zzTmpl) (string, bool) {
 	toks, opt, _ := zzTmplTokens(t)
 	n := len(toks)
 	still := false
-	if nondetChoice("damage", 2) == 0 {
+	switch nondetChoice("damage", 3) {
+	case 0:
 		// the text stops after k words
 		k := nondetChoice("words-kept", n)
 		still = k == n-1 && opt[n-1]
 		toks = toks[:k]
 		zzCover("C16.tokens.cut")
-	} else {
+	case 1:
 		i := nondetChoice("word-missing", n)
 		still = opt[i]
 		var rest []string
@@ -35,6 +36,11 @@ func zzDamaged(t *zzTmpl) (string, bool) {
 		}
 		toks = rest
 		zzCover("C16.tokens.missing")
+	case 2:
+		// two neighbouring words exchanged: the grammar is positional, no exchange yields a rule
+		i := nondetChoice("words-exchanged", n-1)
+		toks[i], toks[i+1] = toks[i+1], toks[i]
+		zzCover("C16.tokens.exchanged")
 	}
 	return zzJoin(toks, " "), still
 }
